@@ -622,6 +622,11 @@ type mck struct {
 const shortLife = 24 * time.Millisecond
 
 func hostKey(h string) string {
+	if strings.HasPrefix(h, "[") { // an IPv6 literal, with or without a port: cookies are not specific to a port
+		if i := strings.IndexByte(h, ']'); i >= 0 {
+			return h[1:i]
+		}
+	}
 	if i := strings.IndexByte(h, ':'); i >= 0 {
 		return h[:i]
 	}
@@ -939,6 +944,9 @@ func classifyJar(c JarCase, fail string) string {
 func genJar(t *rapid.T) JarCase {
 	c := JarCase{Related: rapid.IntRange(0, 5).Draw(t, "related") == 0}
 	hosts := []string{"one.test", "two.test", "one.test:8080", "three.test:81"}
+	if rapid.IntRange(0, 3).Draw(t, "v6hosts") == 0 {
+		hosts = []string{"one.test", "[2001:db8::1]", "[2001:db8::2]", "[2001:db8::1]:8080", "one.test:8080"}
+	}
 	paths := []string{"/", "/a", "/b", "/c"}
 	keys := []string{"k1", "k2", "k3", "k5"}
 	if c.Related {
